@@ -18,6 +18,10 @@ Pipeline
      (b) *direct calls* of the static methods on synthetic namespaces (null and empty sections, names that are not
          subcommands, empty names, both values of `single_subcommand` and `fail_no_subcommand`, all three layer modes),
          and `get_subcommands` EXHAUSTIVELY over a small scope (7168 cases, warning flag included);
+     (b') *concrete layer*: every namespace that a sub-parser's `get_defaults` / `parse_env` returned to a captured
+         `handle_subcommands` call, with the `parent_parsers` stack it was computed under, vs the model's `layerC` computed
+         from the spec alone (option defaults, default config files, environment by variable NAME); the names themselves
+         (`envVarAt`) vs `get_env_var` on trees with '-', '.', '_' and mixed case;
      (c) *whole pipeline*: for trees without default config files the model's `parseArgs` (defaults/environment, command
          line with options and config arguments, the subcommand action, `_parse_common`) vs the real `parse_args` result;
  (3) oracle on the real code, independent of the model: `reference` (written from the property text: sources by
@@ -376,7 +380,8 @@ def install_recorder():
         frame = {"parser": parser, "prefix": prefix, "in_layer": False}
         if outer:
             call = {"path": rec.built.by_id.get(id(parser)), "prefix": prefix, "in": enc(cfg), "env": bool(env), "defaults": bool(defaults),
-                    "fail": bool(fail_no_subcommand), "single": bool(_actions.single_subcommand.get()), "layers": {}, "depth": len(rec.frames),
+                    "fail": bool(fail_no_subcommand), "single": bool(_actions.single_subcommand.get()), "layers": {}, "layer_meta": {},
+                    "depth": len(rec.frames),
                     "layer_failed": False}
             frame["call"] = call
         else:
@@ -412,13 +417,15 @@ def install_recorder():
         finally:
             rec.gets.append(g)
 
-    def layer_wrap(orig):
+    def layer_wrap(orig, fn_name):
         def f(self, *a, **k):
             rec = _REC["cur"]
             if rec is None or not rec.frames or rec.frames[-1]["in_layer"]:
                 return orig(self, *a, **k)
             fr = rec.frames[-1]
             fr["in_layer"] = True
+            # the parent_parsers stack under which the sub-parser computes its layer (already extended by handle_subcommands)
+            stack = [[key, rec.built.by_id.get(id(par))] for key, par in _actions.parent_parsers.get()]
             try:
                 r = orig(self, *a, **k)
             except BaseException:
@@ -426,15 +433,17 @@ def install_recorder():
                 raise
             finally:
                 fr["in_layer"] = False
-            fr["call"]["layers"][fr["prefix"] + str(getattr(self, "subcommand", "?"))] = enc(r)
+            dotted = fr["prefix"] + str(getattr(self, "subcommand", "?"))
+            fr["call"]["layers"][dotted] = enc(r)
+            fr["call"]["layer_meta"][dotted] = {"fn": fn_name, "path": rec.built.by_id.get(id(self)), "ctx": stack}
             return r
 
         return f
 
     cls.handle_subcommands = staticmethod(handle)
     cls.get_subcommands = staticmethod(get)
-    ArgumentParser.parse_env = layer_wrap(orig_penv)
-    ArgumentParser.get_defaults = layer_wrap(orig_gdef)
+    ArgumentParser.parse_env = layer_wrap(orig_penv, "parse_env")
+    ArgumentParser.get_defaults = layer_wrap(orig_gdef, "get_defaults")
     _REC["installed"] = True
 
 
@@ -623,6 +632,59 @@ def pipeline_request(spec, inp):
             return None
     return {"op": "args", "p": p_wire_full(spec, envcs), "argv": argv_wire(inp["argv"]), "ns": {"s": []}, "single": True, "mode": mode,
             "validate": True}
+
+
+def p_wire_conc(spec, path=(), parent_dcfs=()):
+    """parser wire with the CONCRETE fields of the model (option defaults, default config files, position): everything is
+    taken from the spec, nothing from the real parsers"""
+    own = [tree_to_wire(spec["dcf"])] if spec["dcf"] is not None else []
+    d = {"dflt": {"s": []}, "envc": {"s": []}, "path": list(path), "opts": spec_defaults_wire(spec), "options": [n for n, _ in spec["opts"]],
+         "cfgKey": "cfg" if spec["cfg"] else None, "dcfs": own, "pdcfs": list(parent_dcfs), "sub": None, "choices": []}
+    if spec["sub"]:
+        d["sub"] = {"dest": spec["sub"]["dest"], "required": spec["sub"]["required"]}
+        d["choices"] = [[n, p_wire_conc(c, path + (n,), own)] for n, c in spec["sub"]["choices"]]
+    return d
+
+
+def env_wire(spec, inp):
+    """the environment as the model reads it: typed values by variable NAME (names written from the documentation rule)"""
+    env = inp.get("env") or {}
+    vals, cfgs = [], []
+    for path in all_paths(spec):
+        node = node_at(spec, path)
+        for name, _ in node["opts"]:
+            k = env_name(path, name)
+            if k in env:
+                vals.append([k, int(env[k])])
+        if node["sub"]:
+            k = env_name(path, node["sub"]["dest"])
+            if k in env:
+                vals.append([k, env[k]])
+        if node["cfg"]:
+            k = env_name(path, "cfg")
+            if k in env:
+                cfgs.append([k, tree_to_wire(json.loads(env[k]))])
+    return {"root": "app", "vals": vals, "cfgs": cfgs}
+
+
+def layer_requests(spec, inp, call):
+    """the concrete layer of the model for every layer that a captured handle_subcommands call obtained from a sub-parser"""
+    out = []
+    pw = None
+    for dotted, meta in call.get("layer_meta", {}).items():
+        if meta["path"] is None or any(p is None for _, p in meta["ctx"]) or dotted not in call["layers"]:
+            continue
+        if pw is None:
+            pw = p_wire_conc(spec)
+            ew = env_wire(spec, inp) if inp is not None else {"root": "app", "vals": [], "cfgs": []}
+        ctx = []
+        for key, ppath in meta["ctx"]:
+            pn = node_at(spec, tuple(ppath))
+            ctx.append([key, [tree_to_wire(pn["dcf"])] if pn["dcf"] is not None else []])
+        rq = {"op": "layerc", "p": pw, "E": ew, "ctx": ctx, "node": list(meta["path"]), "single": call["single"],
+              "mode": "env" if meta["fn"] == "parse_env" else "dflt"}
+        out.append((rq, {"ok": canon(call["layers"][dotted])}, "layer", meta))
+    return out
 
 
 def same(a, b):
@@ -1219,6 +1281,7 @@ def check_case(ctx, spec, inp, origin, stats):
             stats["skipped_calls"] += 1
             continue
         reqs.append((call_request(spec, c), canon_out(c["out"]), "handle", c))
+        reqs.extend(layer_requests(spec, inp, c))
     # captured get_subcommands calls
     for g in real["gets"]:
         if g["path"] is None or "out" not in g:
@@ -1287,7 +1350,7 @@ def run(ctx: Ctx):
         "option values are ints; typed validation is the subject of C02/C06",
         "the final parse has defaults=True (the default of every parse method)",
         "precedence between sources of parsers of DIFFERENT levels below the given values (a parent's default config file vs a sub-parser's environment variable or default config file) is left to C04: the reference admits either value",
-        "what get_defaults/_load_env_vars of each parser return (default config files, the parent_parsers context, variable names) are inputs of the model (recorded from the real calls); the oracle judges them from the raw inputs",
+        "the final-stage theorems hold for every layer function; the CONCRETE layer (layerC: option defaults, default config files with the parent_parsers key selection, environment variables by name, parse_env recursion) is compared with the recorded get_defaults/parse_env of every sub-parser; environment variable names are ASCII (str.upper beyond ASCII is outside)",
         "dotted keys address paths of a tree (C11); config files contain no dotted keys; no subcommand is called ''",
     ]
     ctx.lean_build(extractors=["subcmd_shape"])
@@ -1306,7 +1369,7 @@ def run(ctx: Ctx):
             spec = gen_spec(ctx.rng, ctx.rng.choice([0.0, 0.15, 0.3]))
         cases.append((spec, gen_input(ctx.rng, spec), "generated"))
 
-    stats = {"skipped_calls": 0, "handle_calls": 0, "get_calls": 0, "final": 0, "pipeline": 0, "ambiguous": 0, "ok-open": 0}
+    stats = {"skipped_calls": 0, "handle_calls": 0, "get_calls": 0, "final": 0, "pipeline": 0, "layer": 0, "ambiguous": 0, "ok-open": 0}
     all_reqs = []
     judged = []
     for spec, inp, origin in cases:
@@ -1326,7 +1389,7 @@ def run(ctx: Ctx):
     if answers is not None:
         for (rq, spec, inp), ans in zip(all_reqs, answers):
             req, exp, kind, rec = rq
-            stats[{"handle": "handle_calls", "get": "get_calls", "final": "final", "pipeline": "pipeline"}[kind]] += 1
+            stats[{"handle": "handle_calls", "get": "get_calls", "final": "final", "pipeline": "pipeline", "layer": "layer"}[kind]] += 1
             ctx.count()
             got = model_view(kind, ans)
             if not same(got, exp):
@@ -1339,6 +1402,7 @@ def run(ctx: Ctx):
     # ---------------- direct calls
     dbad = direct_stage(ctx, stats)
     dbad += exhaustive_get_stage(ctx, stats)
+    dbad += env_names_stage(ctx)
 
     # ---------------- oracle
     for idx, (spec, inp, origin, real) in enumerate(judged):
@@ -1541,6 +1605,50 @@ def exhaustive_get_stage(ctx, stats):
     return bad
 
 
+def env_names_stage(ctx):
+    """names of the environment variables: real get_env_var of every action of trees whose program name, subcommand names and
+    dests contain '-', '.', '_' and mixed case vs the model's `envVarAt` (theorem C17_env_names gives its closed form)"""
+    from jsonargparse import ArgumentParser
+    from jsonargparse._formatters import get_env_var
+
+    progs = ["app", "my-app", "Tool.py", "a_b"]
+    subs = ["fit", "pre-train", "Eval", "x_y", "a.b"]
+    dests = ["lr", "learning_rate", "model.depth", "Mixed-Case", "n"]
+    reqs, exps = [], []
+    for prog in progs:
+        root = ArgumentParser(exit_on_error=False, prog=prog)
+        rootname = os.path.splitext(prog)[0]   # documented: derived from prog
+        level = [(root, [])]
+        for depth in range(3):
+            nxt = []
+            for parser, path in level:
+                for d in dests:
+                    parser.add_argument("--" + d + str(depth), dest=d)
+                if depth < 2:
+                    sc = parser.add_subcommands(dest="cmd" + str(depth))
+                    for n in subs[depth:depth + 3]:
+                        q = ArgumentParser(exit_on_error=False)
+                        sc.add_subcommand(n, q)
+                        nxt.append((q, path + [n]))
+                for a in parser._actions:
+                    if a.dest in dests or a.dest.startswith("cmd"):
+                        reqs.append({"op": "envvar", "root": rootname, "path": path, "dest": a.dest})
+                        exps.append(get_env_var(parser, a))
+            level = nxt
+    answers = model_answers(ctx, [(r, None, "envvar", None) for r in reqs])
+    bad = 0
+    if answers is not None:
+        for rq, exp, ans in zip(reqs, exps, answers):
+            ctx.count()
+            if ans.get("ok") != exp:
+                bad += 1
+                if bad <= 2:
+                    ctx.tie_break("correspondence Subcmd (environment variable name: model vs get_env_var) disagrees",
+                                  json.dumps({"request": rq, "real": exp, "model": ans}, ensure_ascii=True)[:800])
+    ctx.extra["env_variable_names"] = {"cases": len(reqs), "disagreements": bad}
+    return bad
+
+
 def tree_to_wire_ns(t):
     """like tree_to_wire, for trees that are turned into Namespaces directly (an empty dict is an empty namespace)"""
     if isinstance(t, dict):
@@ -1571,6 +1679,8 @@ def direct_stage(ctx, stats):
                 stats["skipped_calls"] += 1
                 continue
             reqs.append(((call_request(spec, c), canon_out(c["out"]), "handle", c), spec, d))
+            for lr in layer_requests(spec, {"kind": "args", "env": env}, c):
+                reqs.append((lr, spec, d))
         for g in gets:
             if g["path"] is None or "out" not in g:
                 continue
@@ -1585,7 +1695,7 @@ def direct_stage(ctx, stats):
         for (rq, spec, d), ans in zip(reqs, answers):
             req, exp, kind, rec = rq
             ctx.count()
-            stats[{"handle": "handle_calls", "get": "get_calls"}[kind]] += 1
+            stats[{"handle": "handle_calls", "get": "get_calls", "layer": "layer"}[kind]] += 1
             got = model_view(kind, ans)
             if not same(got, exp):
                 bad += 1
